@@ -342,6 +342,7 @@ func fieldInfluencesResult(fi *FuncInfo, root types.Object, qtype, field string)
 }
 
 func runC03(c *Ctx) {
+	defer checkSearchFlags(c, "C03-R2", "internal/discovery.GitBranchFinder.Find", "internal/discovery.matchEntries")
 	p := c.P
 	c.Rule("C03-R1", "IsIdentical methods read every content field on both operands", 17)
 	c.Rule("C03-R2", "state decision table of GitBranchFinder.Find equals the reference on all 32 valuations", 32)
